@@ -391,6 +391,15 @@ impl ObjectReceiver {
 
         self.init_blocks_partitioning();
         self.init_object_writer(now);
+        if self.transfer_length == Some(0)
+            && self.oti.is_some()
+            && self.state == State::Receiving
+            && self.object_writer.is_some()
+        {
+            // An empty object has no block to wait for: the packet that created this receiver
+            // was the whole object, it may have been received before the FDT
+            self.complete(now);
+        }
         self.push_from_cache(now);
         self.write_blocks(0, now)
             .unwrap_or_else(|_| self.error("Fail to write blocks to storage", now, false));
